@@ -24,10 +24,14 @@ ASSUMPTIONS = [
     "the obsolete-branch rule (head older than 30 days) is outside the quantifier: all times lie within one 30-day span, its end points included (so no branch is obsolete)",
 ]
 
-SEARCH = ["BUG-7", "fix", "#12", "X", "", " ", "v1.2", "(BUG-7)", "a+b", "x|y", "fix*", "[ab]", "\\d", "$1", "c++"]
+SEARCH = ["BUG-7", "fix", "#12", "X", "", " ", "v1.2", "(BUG-7)", "a+b", "x|y", "fix*", "[ab]", "\\d", "$1", "c++",
+          # blanks at the ends are part of the text ('BUG-7 ' tells BUG-7 from BUG-71)
+          "BUG-7 ", " fix", "X\t", " #12 "]
 # the search text is a plain substring: messages that a regular-expression reading of it would match, but that do not contain it
 REGEX_NEAR = {"v1.2": "v182 released", "(BUG-7)": "see [BUG-7]", "a+b": "aab and ab", "x|y": "only y here", "fix*": "fi fixx",
-              "[ab]": "a or b", "\\d": "digit 5", "$1": "1 dollar", "c++": "ccc"}
+              "[ab]": "a or b", "\\d": "digit 5", "$1": "1 dollar", "c++": "ccc",
+              # ... and messages that contain the text without its blanks only
+              "BUG-7 ": "BUG-71 done, see (BUG-7)", " fix": "prefix and suffix", "X\t": "X marks", " #12 ": "#12: closed; (#12)"}
 
 
 def tag_branch_str(bname):
